@@ -1,24 +1,26 @@
 #!/bin/bash
-# Re-run every kept seeded change against the CURRENT /repo: apply patch, run all quick checks, undo.
-mkdir -p /tmp/seedscratch
-# Updates seeded/<id>/meta.json (checks_that_fire, findings, rechecked_at).
-cd /repo || exit 2
-if ! git diff --quiet; then echo "/repo dirty, abort"; exit 2; fi
-HEAD=$(git rev-parse --short HEAD)
-for d in /verif/seeded/*/; do
+# Re-run every kept seeded change against the CURRENT /repo tree: the patch is applied to a scratch copy of
+# /repo/txdbus (one per seed, removed afterwards; /repo itself is not touched), every quick check is run on
+# the copy with --src, and seeded/<id>/meta.json is updated (checks_that_fire, findings, rechecked_at).
+# 16 seeds at a time.
+HEAD=$(git -C /repo rev-parse --short HEAD)
+S=$(mktemp -d /tmp/seedrerun.XXXXXX)
+one() {
+  d=$1; S=$2; HEAD=$3
   id=$(basename $d)
-  if git apply --check $d/patch.diff 2>/dev/null; then
-    git apply $d/patch.diff
-    fires=""; finds=""
-    for c in $(ls /verif/txsa/rules | grep -o '^c[0-9][0-9]' | sort -u); do
-      C=$(echo $c | tr c C)
-      out=$(cd /verif && TXSA_EVIDENCE_OUT=/tmp/seedscratch/ev_rerun_$C.json ./check $C 2>&1 | grep -v conda)
-      if echo "$out" | grep -q '^VIOLATION'; then fires="$fires $C"; finds="$finds$(echo "$out" | grep '^FINDING' | head -2 | cut -c9-140 | tr '\n' ';')"; fi
-      if echo "$out" | grep -q 'ANALYSIS-ERROR'; then fires="$fires $C(analysis-error)"; fi
-    done
-    git checkout -- .
-    echo "$id | applies | fires:$fires"
-    /venv/bin/python - "$d" "$fires" "$finds" "$HEAD" <<'PY'
+  W=$S/$id; mkdir -p $W; cp -r /repo/txdbus $W/txdbus
+  if ! (cd $W && patch -s -p1 < $d/patch.diff >/dev/null 2>&1); then
+    echo "$id | patch does not apply to /repo@$HEAD (kept as recorded)"; rm -rf $W; return
+  fi
+  fires=""; finds=""
+  for C in C01 C02 C03 C04 C05 C06 C07 C08 C09 C10 C11 C12 C13 C14 C15 C16 C17 C18 C19 C20; do
+    out=$(cd /verif && TXSA_EVIDENCE_OUT=$W/ev_$C.json ./check $C --src $W 2>&1 | grep -v conda)
+    if echo "$out" | grep -q '^VIOLATION'; then fires="$fires $C"; finds="$finds$(echo "$out" | grep '^FINDING' | head -2 | cut -c9-140 | tr '\n' ';')"; fi
+    if echo "$out" | grep -q 'ANALYSIS-ERROR'; then fires="$fires $C(analysis-error)"; fi
+  done
+  rm -rf $W
+  echo "$id | applies | fires:$fires"
+  /venv/bin/python - "$d/" "$fires" "$finds" "$HEAD" <<'PY'
 import json, sys
 d, fires, finds, head = sys.argv[1:5]
 m = json.load(open(d + 'meta.json'))
@@ -27,8 +29,7 @@ m['findings'] = [f for f in finds.split(';') if f][:6]
 m['rechecked_at_repo_commit'] = head
 json.dump(m, open(d + 'meta.json', 'w'), indent=1)
 PY
-  else
-    echo "$id | patch does not apply to /repo@$HEAD (kept as recorded)"
-  fi
-done
-rm -rf /tmp/seedscratch
+}
+export -f one
+ls -d /verif/seeded/*/ | sed 's:/$::' | xargs -P 16 -I{} bash -c 'one {} '$S' '$HEAD | sort
+rm -rf $S
